@@ -54,7 +54,20 @@ def _split(m):
     return [m - 1, 1]
 
 
-def run_impl(entry, m, k, retain, novmap):
+def row_scales(m, rows):
+    """the factor p_i of loss i (its gradient w.r.t. the features is p_i W_i): ordinary, exactly zero for
+    every second loss (a task whose loss does not depend on the features right now), or tiny
+    (2^-600: far below the point where a 2-norm of the row underflows in float64)"""
+    if rows == "zero":
+        return [float(i + 1) if i % 2 == 0 else 0.0 for i in range(m)]
+    if rows == "tiny":
+        return [float(i + 1) if i % 2 == 0 else (i + 1) * 2.0 ** -600 for i in range(m)]
+    if rows == "alltiny":
+        return [(i + 1) * 2.0 ** -600 for i in range(m)]
+    return [float(i + 1) for i in range(m)]
+
+
+def run_impl(entry, m, k, retain, novmap, rows="normal"):
     log = []
     x = torch.tensor([1.0, 2.0, 3.0], dtype=torch.float64, requires_grad=True)
     h = x * 2
@@ -82,13 +95,13 @@ def run_impl(entry, m, k, retain, novmap):
             res["expected"] = expected.tolist()
         else:
             f1, f2 = h[:2] * 3, h[2:] * 3
-            ps = [torch.tensor(float(i + 1), dtype=torch.float64, requires_grad=True)
-                  for i in range(m)]
+            pvl = row_scales(m, rows)
+            ps = [torch.tensor(pvl[i], dtype=torch.float64, requires_grad=True) for i in range(m)]
             f = torch.cat([f1, f2])
             losses = [(W[i] @ f) * ps[i] for i in range(m)]
             mtl_backward(losses, [f1, f2], Constant(w), retain_graph=retain,
                          parallel_chunk_size=k)
-            pv = torch.arange(1, m + 1, dtype=torch.float64)
+            pv = torch.tensor(pvl, dtype=torch.float64)
             expected = 6 * ((w * pv) @ W)
             res["grads"] = x.grad.tolist() + [float(p.grad) for p in ps]
             fv = torch.tensor([6.0, 12.0, 18.0], dtype=torch.float64)
@@ -121,11 +134,11 @@ def model_plans(cs):
     return {key: v for key, v in zip(keys, vals)}
 
 
-def judge(chk, case, plan, novmap, res):
+def judge(chk, case, plan, novmap, res, rows="normal"):
     entry, m, k, retain = case
     kk = m if k is None else k
     rep = {"kind": "c07", "entry": entry, "m": m, "k": k, "retain": retain, "novmap": novmap,
-           "observed": res, "model_plan": plan}
+           "observed": res, "model_plan": plan, "rows": rows}
     model_sweeps = [[bool(b), int(ln)] for (_, ln, b, _) in plan]
     any_batched = any(b for b, _ in model_sweeps)
     bad = None
@@ -144,8 +157,10 @@ def judge(chk, case, plan, novmap, res):
             bad = f"{entry} m={m} k={k}: sweep sizes {obs} are not <= k covering m rows"
         elif (k == 1 or m == 1) and any(b for b, _ in obs):
             bad = f"{entry} m={m} k={k}: batched (vmap) differentiation used although sequential"
-        elif any(abs(a - b) > 1e-9 for a, b in zip(res["grads"], res["expected"])):
-            bad = f"{entry} m={m} k={k}: update {res['grads']} differs from {res['expected']}"
+        elif any(abs(a - b) > 1e-9 * max(abs(b), 1.0 if rows == "normal" else 0.0) for a, b in zip(res["grads"], res["expected"])):
+            bad = f"{entry} m={m} k={k} ({rows} rows): update {res['grads']} differs from {res['expected']}"
+    if bad and rows != "normal" and "sweeps" in bad:
+        bad += f" ({rows} rows: every second loss has a zero / 2^-600-scaled gradient w.r.t. the features)"
     if bad:
         chk.violation(bad, rep)
         return False
@@ -181,6 +196,15 @@ def run(chk):
                       nontrivial=True)
             chk.note("novmap_runs")
             judge(chk, case, plan, True, res2)
+        if entry == "mtl_backward" and m >= 2:
+            # rows of the Jacobian that are exactly zero or tiny are rows all the same: same sweeps, and a
+            # relative comparison of the update (the all-tiny variant has nothing else to hide behind)
+            for rows in ("zero", "tiny", "alltiny"):
+                if (m + (0 if k is None else k)) % 3 != ("zero", "tiny", "alltiny").index(rows) and m > 4:
+                    continue
+                res3 = run_impl(entry, m, k, retain, False, rows)
+                chk.note("rows_" + rows)
+                judge(chk, case, plan, False, res3, rows)
     chk.assumptions += [
         "a tensor hook in the trunk fires exactly once per sweep (probed on the unchanged tree)",
         "row-wise vjp of a batch equals the stack of per-row vjps (vmap contract)"]
@@ -189,8 +213,9 @@ def run(chk):
 def replay(chk, obj):
     case = (obj["entry"], obj["m"], obj["k"], obj["retain"])
     plans = model_plans([case])
-    res = run_impl(obj["entry"], obj["m"], obj["k"], obj["retain"], obj.get("novmap", False))
+    res = run_impl(obj["entry"], obj["m"], obj["k"], obj["retain"], obj.get("novmap", False), obj.get("rows", "normal"))
     print("observed:", res)
     print("model plan:", plans[(obj["m"], obj["k"], obj["retain"])])
-    ok = judge(chk, case, plans[(obj["m"], obj["k"], obj["retain"])], obj.get("novmap", False), res)
+    ok = judge(chk, case, plans[(obj["m"], obj["k"], obj["retain"])], obj.get("novmap", False), res,
+               obj.get("rows", "normal"))
     return ok
